@@ -150,6 +150,10 @@ Definition run_item (w : world) (it : sx) : world * sx :=
   | L [A 48; A scope; A a] => (w, L [A 0; sx_zs (aggregate w scope a)])
   | L [A 47; ns] =>
     (w, L [A 0; L (map (fun n => L [A n; sx_opt (ir_of w n); sx_opt (module_of w n); sx_opt (section_of w n)]) (un_zs ns))])
+  | L [A 49; _] =>
+    (* the harness replaced its world by a copy of itself (copy.deepcopy / a pickle round trip of every object): a copy of a state
+       is that state *)
+    (w, L [A 0])
   | L [A 29; A bi; A v] =>
     (* bi.initialized_size = v: the stored bytes are ByteStore.v's concern; for the object graph the assignment is a size
        assignment through the indexed attribute when v exceeds the size (ByteStore.set_init), and nothing otherwise *)
